@@ -259,6 +259,12 @@ class World:
                 dict(pid='p1', stream='bbb', start=4, duration=32, tracks=[('video', 1), ('audio', 2)]),
                 dict(pid='p2', stream='tears', start=8, duration=44, tracks=[('video', 1), ('audio', 2)]),
             ])
+        if mps and 'bbb' in streams and 'synenc' in streams:
+            # Periods from two streams that both have encrypted media (and different licence URLs)
+            self.add_mps('encmps', [
+                dict(pid='e1', stream='bbb', start=0, duration=8, tracks=[('video', 1), ('audio', 2)]),
+                dict(pid='e2', stream='synenc', start=0, duration=7, tracks=[('video', 1), ('audio', 2)]),
+            ])
         if extras:
             self.add_extras_mps()
         db.session.remove()
@@ -325,7 +331,9 @@ class World:
         d.mkdir(exist_ok=True)
         stream = models.Stream(title=title or f'synthetic {name}', directory=name,
                                marlin_la_url=f'ms3://localhost/marlin/{name}',
-                               playready_la_url='https://test.playready.microsoft.com/service/rightsmanager.asmx?cfg={cfgs}')
+                               # (synenc has a licence URL of its own: in a multi-period stream next to bbb the two differ)
+                               playready_la_url=('https://lic.example/synenc/rights' if name == 'synenc' else
+                                                 'https://test.playready.microsoft.com/service/rightsmanager.asmx?cfg={cfgs}'))
         models.db.session.add(stream)
         for stem in sorted(files):
             data = files[stem]
